@@ -101,9 +101,9 @@ type Result struct {
 	Harness    string           `json:"harness,omitempty"` // reason for harness-error / invalid
 	Class      string           `json:"class"`             // configuration/fault/interleaving class for the distinct count
 	Nontrivial bool             `json:"nontrivial"`
-	Faults     map[string]int   `json:"faults,omitempty"` // fault kinds that actually fired
-	Probes     map[string]int   `json:"probes,omitempty"` // reach probes hit
-	Stats      map[string]int64 `json:"stats,omitempty"`  // free counters (dont_care, inconclusive, ops ...)
+	Faults     map[string]int   `json:"faults,omitempty"`   // fault kinds that actually fired
+	Probes     map[string]int   `json:"probes,omitempty"`   // reach probes hit
+	Stats      map[string]int64 `json:"stats,omitempty"`    // free counters (dont_care, inconclusive, ops ...)
 	Volatile   map[string]int64 `json:"volatile,omitempty"` // real measurements (allocation); not part of the determinism comparison
 	Interleave string           `json:"interleave,omitempty"`
 	SimNs      int64            `json:"sim_ns"`
